@@ -5,6 +5,7 @@ package main
 // All decisions are made by TLC (WrapV.tla / Wrap.tla / Bidi.tla).
 
 import (
+	"bytes"
 	"encoding/json"
 	"fmt"
 	"math/rand"
@@ -13,7 +14,10 @@ import (
 	"strconv"
 	"strings"
 
+	tdh "github.com/go-text/typesetting-utils/harfbuzz"
+	td "github.com/go-text/typesetting-utils/opentype"
 	"github.com/go-text/typesetting/di"
+	"github.com/go-text/typesetting/font"
 	"github.com/go-text/typesetting/segmenter"
 	"github.com/go-text/typesetting/shaping"
 	"golang.org/x/image/math/fixed"
@@ -438,6 +442,40 @@ func levelsFor(dirs []int, pdir int) []int {
 	return l
 }
 
+// real fonts for the pipeline class
+type realFontmap struct{ faces []*font.Face }
+
+func (f realFontmap) ResolveFace(r rune) *font.Face {
+	for _, fc := range f.faces {
+		if _, ok := fc.NominalGlyph(r); ok {
+			return fc
+		}
+	}
+	return f.faces[0]
+}
+
+func realFaces() ([]*font.Face, error) {
+	var out []*font.Face
+	for _, p := range []string{"perf_reference/fonts/Roboto-Regular.ttf", "perf_reference/fonts/Amiri-Regular.ttf", "perf_reference/fonts/NotoSansDevanagari-Regular.ttf"} {
+		b, err := tdh.Files.ReadFile(p)
+		if err != nil {
+			return nil, err
+		}
+		f, err := font.ParseTTF(bytes.NewReader(b))
+		if err != nil {
+			return nil, err
+		}
+		out = append(out, f)
+	}
+	b, err := td.Files.ReadFile("common/FreeSerif.ttf")
+	if err == nil {
+		if f, err := font.ParseTTF(bytes.NewReader(b)); err == nil {
+			out = append(out, f)
+		}
+	}
+	return out, nil
+}
+
 func wrapMain(args []string) error {
 	if len(args) == 0 {
 		return fmt.Errorf("wrap: missing sub-command")
@@ -617,6 +655,118 @@ func wrapMain(args []string) error {
 				if k < 0 {
 					break
 				}
+			}
+		}
+		fmt.Printf("{\"paragraphs\": %d}\n", paras)
+		return nil
+
+	case "real":
+		// wrap real <paragraphs> <prefix> <shards>: the real pipeline Split -> Shape -> (AddSpacing) -> wrap on corpus fonts:
+		// ligatures, multi-glyph clusters, clusters straddling break opportunities, cluster-fused newlines
+		count, _ := strconv.Atoi(args[1])
+		prefix := args[2]
+		shards, _ := strconv.Atoi(args[3])
+		faces, err := realFaces()
+		if err != nil {
+			return err
+		}
+		sw := newShardWriter(prefix, shards)
+		defer sw.close()
+		lws := make([]*shaping.LineWrapper, shards)
+		for i := range lws {
+			lws[i] = &shaping.LineWrapper{}
+		}
+		rng := rand.New(rand.NewSource(seed*271 + 13))
+		words := [][]rune{[]rune("office"), []rune("fluffy"), []rune("AVATAR"), []rune("fi"), []rune("سلام"), []rune("عليكم"), []rune("لله"), []rune("שָׁלוֹם"), []rune("עולם"),
+			[]rune("क्षत्रिय"), []rune("हिन्दी"), []rune("123"), []rune("4,5"), []rune("(x)"), []rune("a-b"), []rune("é"), {'e', 0x0301}, []rune("Ελλάδα"), {'\n'}, {0x2028}, []rune("co-op"), []rune("…")}
+		paras := 0
+		var seg shaping.Segmenter
+		var sh shaping.HarfbuzzShaper
+		for c := 0; c < count; c++ {
+			var text []rune
+			nw := 1 + rng.Intn(6)
+			for w := 0; w < nw; w++ {
+				if w > 0 && rng.Intn(5) != 0 {
+					text = append(text, ' ')
+				}
+				text = append(text, words[rng.Intn(len(words))]...)
+			}
+			pdir := rng.Intn(2)
+			dir := di.DirectionLTR
+			if pdir == 1 {
+				dir = di.DirectionRTL
+			}
+			fm := realFontmap{faces}
+			inputs := seg.Split(shaping.Input{Text: text, RunStart: 0, RunEnd: len(text), Direction: dir, Size: fixed.I(16), Language: "en"}, fm)
+			shaped := make([]shaping.Output, len(inputs))
+			ok := true
+			for i, in := range inputs {
+				func() {
+					defer func() {
+						if r := recover(); r != nil {
+							ok = false
+						}
+					}()
+					shaped[i] = sh.Shape(in)
+				}()
+			}
+			if !ok {
+				continue
+			}
+			ls := 0
+			allLTR := pdir == 0
+			for _, o := range shaped {
+				if o.Direction.Progression() == di.TowardTopLeft {
+					allLTR = false
+				}
+			}
+			cls := "real"
+			if allLTR && rng.Intn(4) == 0 {
+				ls = 2
+				cls = "ls"
+			}
+			build := func() []shaping.Output {
+				out := make([]shaping.Output, len(shaped))
+				for i := range shaped {
+					out[i] = shaped[i]
+					out[i].Glyphs = append([]shaping.Glyph(nil), shaped[i].Glyphs...)
+				}
+				if ls != 0 {
+					shaping.AddSpacing(out, text, 0, fixed.I(ls))
+				}
+				return out
+			}
+			total := 0
+			lv := make([]int, len(shaped))
+			for i, o := range build() {
+				total += o.Advance.Ceil()
+				d := dirCode(o.Direction)
+				if d == pdir {
+					lv[i] = pdir
+				} else {
+					lv[i] = pdir + 1
+				}
+			}
+			for _, frac := range []int{0, 1, 3, 5, 8, 12} {
+				w := total * frac / 10
+				if frac == 0 {
+					w = 1 + rng.Intn(20)
+				}
+				pol := rng.Intn(3)
+				tr := []int{0, 0, 1, 2, 3}[rng.Intn(5)]
+				tdirv := pdir
+				if tr > 0 && rng.Intn(4) == 0 {
+					tdirv = 1 - pdir
+				}
+				api := "para"
+				if rng.Intn(3) == 0 {
+					api = "next"
+				}
+				sc := wrapScenario{id: fmt.Sprintf("real text=%x pdir=%d ls=%d", text, pdir, ls), cls: cls, text: text, build: build, lvls: lv,
+					cfg: wCfg{Pdir: pdir, Pol: pol, Trunc: tr, Tadv: 64 * 9, Cont: tr > 0 && rng.Intn(2) == 0, Notrim: rng.Intn(5) == 0, Tdir: tdirv}, width: w, api: api, delta: rng.Intn(3) - 1}
+				sh2 := paras % shards
+				runScenario(sw.encs[sh2], lws[sh2], sc)
+				paras++
 			}
 		}
 		fmt.Printf("{\"paragraphs\": %d}\n", paras)
